@@ -15,7 +15,7 @@ use std::cell::RefCell;
 use std::io::{BufWriter, Read, Seek as IoSeek, SeekFrom, Write};
 use std::rc::Rc;
 
-pub const RULE: &str = "scenarios: encode+finalize through sample/byte/channel writers (seek table on/off × declared/undeclared) directly over the device (at offset 0 and behind a 24-byte foreign prefix) and over BufWriter<device> passed by value (as the crate's own create(path) does); FlacStreamWriter::write ×2; write_blocks; update_file in place (shrink / equal / grow into padding) and rebuilt; decode through 3 readers, verify_reader, generate_seektable and update_file under failing reads. For each scenario EVERY index n of the n-th write/flush/seek (resp. read) call × {permanent from n, once at n, Interrupted at n, 1-byte short transfer at n}; every pair of faults on all scenarios; thorough adds every triple on scenarios with ≤ 40 targeted calls. A state is one (scenario, fault schedule); outcomes = (scenario, kind, api result, contents equal?)";
+pub const RULE: &str = "scenarios: encode+finalize through sample/byte/channel writers (stereo: seek table on/off × declared/undeclared; mono, 3 and 6 channels: sample and channel writers; raw frames with 3 channels) directly over the device (at offset 0 and behind a 24-byte foreign prefix) and over BufWriter<device> passed by value (as the crate's own create(path) does); FlacStreamWriter::write ×2; write_blocks; update_file in place (shrink / equal / grow into padding) and rebuilt; decode through 3 readers, verify_reader, generate_seektable and update_file under failing reads. For each scenario EVERY index n of the n-th write/flush/seek (resp. read) call × {permanent from n, once at n, Interrupted at n, 1-byte short transfer at n}; every pair of faults on all scenarios; thorough adds every triple on scenarios with ≤ 40 targeted calls. A state is one (scenario, fault schedule); outcomes = (scenario, kind, api result, contents equal?)";
 pub const ASSUMPTIONS: &[&str] = &["fault sequences with more than 2 (thorough: 3 on short scenarios) faults are not explored", "File-backed entry points (create/open/update(path)) are the same generic code over BufWriter<File>/File; they are represented by the BufWriter<device> scenarios"];
 pub fn bounds(quick: bool) -> Value {
     json!({"single_faults": "every call index × 4 kinds, all scenarios", "pairs": "all scenarios, all kinds", "triples": if quick { "none" } else { "scenarios with <= 40 targeted calls" }})
@@ -130,6 +130,39 @@ fn scenarios() -> Vec<Scen> {
                 }
             }
         }
+    }
+    // ---- the other channel layouts (mono, and the 3..8-channel path that encodes its subframes through a different loop)
+    for chn in [1u8, 3, 6] {
+        for wk in ["sample", "channel"] {
+            let sigc = Sig { rate: 48000, bps: 16, ch: chn };
+            let pcmc = ident_pcm(chn, 16, 37);
+            v.push((format!("encode-{wk}-{chn}ch-seek-declared-direct"), Target::Writes, false, vec![], Box::new(move |env: &Env| {
+                let opt = Opt { seek: Seek::Frames(1), declared: true, pad: Pad::Size(64), ..Opt::base16() };
+                let o = opt.to_options()?;
+                if wk == "sample" {
+                    let mut w = FlacSampleWriter::new(env.primary.clone(), o, sigc.rate, sigc.bps, sigc.ch, Some(pcmc.len() as u64)).map_err(e)?;
+                    w.write(&pcmc[..20 * chn as usize]).map_err(e)?;
+                    w.write(&pcmc[20 * chn as usize..]).map_err(e)?;
+                    w.finalize().map_err(e)?;
+                } else {
+                    let ch = crate::codec::deinterleave(&pcmc, chn as usize);
+                    let mut w = FlacChannelWriter::new(env.primary.clone(), o, sigc.rate, sigc.bps, sigc.ch, Some(37)).map_err(e)?;
+                    w.write(ch.iter().map(|c| &c[..20]).collect::<Vec<_>>()).map_err(e)?;
+                    w.write(ch.iter().map(|c| &c[20..]).collect::<Vec<_>>()).map_err(e)?;
+                    w.finalize().map_err(e)?;
+                }
+                Ok(vec![])
+            })));
+        }
+    }
+    {
+        let pcm3 = ident_pcm(3, 16, 20);
+        v.push(("stream-writer-3ch+mono".into(), Target::Writes, false, vec![], Box::new(move |env: &Env| {
+            let mut w = FlacStreamWriter::new(env.primary.clone(), flac_codec::encode::Options::default());
+            w.write(44100, 3, 16, &pcm3).map_err(e)?;
+            w.write(8000, 1, 16, &pcm3[..17]).map_err(e)?;
+            Ok(vec![])
+        })));
     }
     // ---- raw frames
     {
